@@ -32,6 +32,7 @@ const (
 	kfComp = "K17c-compressed-multiapp-offset-not-size"
 	kfRace = "K17r-multiapp-read-key-not-found-on-eviction"
 	kfRot  = "K17x-multiapp-read-served-by-next-chunk-during-rotation"
+	kfCls  = "K17y-multiapp-active-chunk-handle-closed-under-reader"
 )
 
 func TestMain(m *testing.M) {
@@ -63,6 +64,7 @@ func TestMain(m *testing.M) {
 			{ID: kfComp, Present: probeComp},
 			{ID: kfRace, Present: probeRace},
 			{ID: kfRot, Present: probeRot},
+			{ID: kfCls, Present: probeClosed},
 		},
 	})
 }
@@ -188,7 +190,7 @@ func probeComp() (bool, string) {
 // lock in between; when another reader, the writer's chunk rotation or a read-ahead goroutine evicts the
 // entry in that window the read fails with cache.ErrKeyNotFound. Schedule dependent: the probe runs 4
 // readers over 7 chunks with MaxOpenedFiles=1 until the error shows up (normally within ~50 reads),
-// giving up after 2M reads.
+// giving up after 120000 reads.
 func probeRace() (bool, string) {
 	dir := vk.Dir()
 	defer removeAll(dir)
@@ -207,7 +209,7 @@ func probeRace() (bool, string) {
 		go func() {
 			defer wg.Done()
 			b := make([]byte, 4)
-			for i := 0; i < 500000 && found.Load() == 0; i++ {
+			for i := 0; i < 30000 && found.Load() == 0; i++ {
 				_, err := m.ReadAt(b, int64(((i+g)%7)*8))
 				reads.Add(1)
 				if errors.Is(err, cache.ErrKeyNotFound) {
@@ -226,65 +228,101 @@ func probeRace() (bool, string) {
 // probeRot: appendableFor evaluates `return mf.currApp` after mf.mutex.Unlock(); when the appender rotates
 // to the next chunk in between (likely once the starved appender gets the mutex handed over), the read of
 // the chunk that was active is executed on the new chunk: wrong bytes or a spurious EOF. Schedule
-// dependent: chunk size 1 (every append rotates), 32 readers of the newest byte, up to 40000 appends
-// (normally a few hundred to a few thousand are enough, also on a loaded machine).
+// dependent: see rotationStress (normally a few hundred to a few thousand appends are enough, also on a
+// loaded machine).
 func probeRot() (bool, string) {
-	dir := vk.Dir()
-	defer removeAll(dir)
-	m, err := multiapp.Open(filepath.Join(dir, "m"), multiapp.DefaultOptions().WithFileSize(1).WithMaxOpenedFiles(1<<20).WithWriteBufferSize(16))
-	if err != nil {
-		return false, ""
-	}
-	defer m.Close()
-	posByte := func(i int64) byte { return byte(i*131+7) | 1 }
-	var size, bad atomic.Int64
-	var detail atomic.Value
-	stop := make(chan struct{})
-	var wg sync.WaitGroup
-	for g := 0; g < 32; g++ {
-		wg.Add(1)
-		go func() {
-			defer wg.Done()
-			b := make([]byte, 1)
-			for {
-				select {
-				case <-stop:
-					return
-				default:
-				}
-				s := size.Load()
-				if s == 0 {
-					continue
-				}
-				n, err := m.ReadAt(b, s-1)
-				if errors.Is(err, cache.ErrKeyNotFound) {
-					continue // K17r
-				}
-				if n != 1 || err != nil || b[0] != posByte(s-1) {
-					if bad.Add(1) == 1 {
-						detail.Store(fmt.Sprintf("ReadAt(1 byte @%d) = (%x,%d,%v), the byte appended there is %x", s-1, b[:n], n, err, posByte(s-1)))
+	rotationStress()
+	return rotWrong != "", rotWrong
+}
+
+// probeClosed: the handle appendableFor returns for the active chunk is the writer's own (not reference
+// counted). Once the appender has rotated away from that chunk it sits in the handle cache with no
+// reference, and the next eviction (a further rotation, or any other reader opening a chunk) closes it
+// under the reader, whose ReadAt then fails with singleapp.ErrAlreadyClosed. Same stress run as K17x.
+func probeClosed() (bool, string) {
+	rotationStress()
+	return rotClosed != "", rotClosed
+}
+
+var (
+	rotOnce             sync.Once
+	rotWrong, rotClosed string
+)
+
+// rotationStress: chunk size 1 (every append rotates), 2 cached handles, one appender, 32 goroutines
+// reading the newest byte. Runs until both symptoms were seen (at most 4000 more appends after the
+// first one) or 40000 appends were made.
+func rotationStress() {
+	rotOnce.Do(func() {
+		dir := vk.Dir()
+		defer removeAll(dir)
+		m, err := multiapp.Open(filepath.Join(dir, "m"), multiapp.DefaultOptions().WithFileSize(1).WithMaxOpenedFiles(2).WithWriteBufferSize(16))
+		if err != nil {
+			return
+		}
+		defer m.Close()
+		posByte := func(i int64) byte { return byte(i*131+7) | 1 }
+		var size, nWrong, nClosed atomic.Int64
+		var dWrong, dClosed atomic.Value
+		stop := make(chan struct{})
+		var wg sync.WaitGroup
+		for g := 0; g < 32; g++ {
+			wg.Add(1)
+			go func() {
+				defer wg.Done()
+				b := make([]byte, 1)
+				for {
+					select {
+					case <-stop:
+						return
+					default:
 					}
-					return
+					s := size.Load()
+					if s == 0 {
+						continue
+					}
+					n, err := m.ReadAt(b, s-1)
+					switch {
+					case errors.Is(err, cache.ErrKeyNotFound): // K17r
+					case errors.Is(err, singleapp.ErrAlreadyClosed):
+						if nClosed.Add(1) == 1 {
+							dClosed.Store(fmt.Sprintf("ReadAt(1 byte @%d) = (%d,%v)", s-1, n, err))
+						}
+					case err == io.EOF || (err == nil && (n != 1 || b[0] != posByte(s-1))):
+						if nWrong.Add(1) == 1 {
+							dWrong.Store(fmt.Sprintf("ReadAt(1 byte @%d) = (%x,%d,%v), the byte appended there is %x", s-1, b[:n], n, err, posByte(s-1)))
+						}
+					}
 				}
+			}()
+		}
+		var i, firstAt int64
+		for i = 0; i < 40000; i++ {
+			w, c := nWrong.Load() > 0, nClosed.Load() > 0
+			if w && c {
+				break
 			}
-		}()
-	}
-	var i int64
-	for i = 0; i < 40000 && bad.Load() == 0; i++ {
-		if _, _, err := m.Append([]byte{posByte(i)}); err != nil {
-			break
+			if (w || c) && firstAt == 0 {
+				firstAt = i + 1
+			}
+			if firstAt > 0 && i > firstAt+4000 {
+				break
+			}
+			if _, _, err := m.Append([]byte{posByte(i)}); err != nil {
+				break
+			}
+			size.Store(i + 1)
 		}
-		size.Store(i + 1)
-		if i%2000 == 1999 {
-			m.DiscardUpto(i - 100) // keep the number of chunk files small
+		close(stop)
+		wg.Wait()
+		const setup = "multiapp(fileSize 1, maxOpenedFiles 2), one goroutine appending single bytes, 32 goroutines reading the newest byte: "
+		if nWrong.Load() > 0 {
+			rotWrong = fmt.Sprintf("%s%v (%d appends in this run)", setup, dWrong.Load(), i)
 		}
-	}
-	close(stop)
-	wg.Wait()
-	if bad.Load() > 0 {
-		return true, fmt.Sprintf("multiapp(fileSize 1), one goroutine appending single bytes, 32 goroutines reading the newest byte: %v (after %d appends in this run)", detail.Load(), i)
-	}
-	return false, ""
+		if nClosed.Load() > 0 {
+			rotClosed = fmt.Sprintf("%s%v (%d appends in this run)", setup, dClosed.Load(), i)
+		}
+	})
 }
 
 // ---------------------------------------------------------------------------
@@ -955,10 +993,10 @@ type window struct{ start, ln int }
 // doConcurrent: readers check windows of the bytes that exist now while the writer appends.
 func (h *harness) doConcurrent(appends []int, readers [][]window) {
 	snap := append([]byte(nil), h.data...)
-	if h.c.Multi && len(snap) > 0 && vk.Excluded(kfRot) {
-		// known finding K17x: a read of the active chunk that overlaps a chunk rotation may be served by
-		// the next chunk. Windows are cut at the start of the chunk that is active now when the appends
-		// of this step leave that chunk.
+	if h.c.Multi && len(snap) > 0 && (vk.Excluded(kfRot) || vk.Excluded(kfCls)) {
+		// known findings K17x / K17y: a read of the active chunk that overlaps a chunk rotation may be
+		// served by the next chunk, or find its handle closed by the next eviction. Windows are cut at the
+		// start of the chunk that is active now when the appends of this step leave that chunk.
 		total := 0
 		for _, n := range appends {
 			total += n
@@ -971,8 +1009,13 @@ func (h *harness) doConcurrent(appends []int, readers [][]window) {
 				var k []window
 				for _, w := range ws {
 					if w.start+w.ln > vuln {
-						vk.CountExcluded(kfRot)
-						h.lbl("K17x-window-cut-before-active-chunk")
+						if vk.Excluded(kfRot) {
+							vk.CountExcluded(kfRot)
+						}
+						if vk.Excluded(kfCls) {
+							vk.CountExcluded(kfCls)
+						}
+						h.lbl("K17x/y-window-cut-before-active-chunk")
 						if w.start >= vuln {
 							continue
 						}
